@@ -221,6 +221,9 @@ class Ctx:
             return
         goal_s = z3.simplify(goal)
         t0 = time.time()
+        if os.environ.get("PYVC_DEBUG_GOAL") and os.environ["PYVC_DEBUG_GOAL"] in name:
+            import sys as _sys
+            print("DEBUG %s\n  goal: %s\n  path condition:\n    %s" % (name, goal, "\n    ".join(str(a) for a in self.solver.assertions())), file=_sys.stderr)
         if z3.is_true(goal_s):
             self.run.record(ObligationResult(name, "discharged", "simplify", 0.0, path=list(self.decisions), detail=detail))
             return
@@ -231,8 +234,16 @@ class Ctx:
         backend = "z3"
         smt_size = 0
         if r == z3.sat:
-            model = self._model_dict(self.solver.model())
-        elif r == z3.unknown:
+            # z3's sequence solver can answer `sat` with an assignment that does not satisfy the query (equal strings behind different
+            # terms are not always merged for uninterpreted functions): a model that falsifies a quantifier-free assertion is no
+            # counterexample - the answer is treated as `unknown` and the query goes to cvc5
+            m = self.solver.model()
+            if self._model_refuted(m):
+                r = z3.unknown
+                self.run.spurious_models = getattr(self.run, "spurious_models", 0) + 1
+            else:
+                model = self._model_dict(m)
+        if r == z3.unknown:
             smt = self.solver.to_smt2()
             smt_size = len(smt)
             smt = smt.replace("(check-sat)", "")
@@ -268,6 +279,19 @@ class Ctx:
         self._add(goal)
         if status == "failed" and self._sat(z3.BoolVal(True)) == z3.unsat:
             raise Infeasible()
+
+    def _model_refuted(self, m):
+        """True if the model evaluates some quantifier-free assertion of the current query to false."""
+        try:
+            for a in self.solver.assertions():
+                if has_quantifier(a):
+                    continue
+                v = m.eval(a, model_completion=True)
+                if z3.is_false(v):
+                    return True
+        except z3.Z3Exception:
+            return False
+        return False
 
     def cover(self, name):
         """Reachability witness (vacuity guard): this program point is feasible."""
